@@ -276,6 +276,9 @@ func runC02(c *fw.Ctx) {
 	}
 	// ---- D: same packet identifier inbound (QoS 2) and outbound -------------------------
 	c02IDCollision(c, base)
+	// ---- F: a recipient whose connection rejects writes; a subscriber that joins between two
+	// publishes on the same topic
+	c02Fanout(c, base)
 	// ---- E: overlapping QoS 2 deliveries (PUBCOMP withheld) and retained publishes with empty payload
 	c02Overlap(c, base)
 	c.Floor("acked_deliveries_checked", 500)
@@ -482,6 +485,121 @@ func c02Overlap(c *fw.Ctx, base string) {
 			}
 			c.Case(label, true)
 			c.Observe("overlap_scenarios", 1)
+		}()
+	}
+}
+
+// c02Fanout: (1) two QoS 0 subscribers of one topic, the first one's connection rejects writes while
+// its session is still registered: the second one must get every acknowledged message anyway;
+// (2) a subscriber that joins between two publishes on the SAME topic (no other topic in between)
+// must get everything acknowledged after its subscription is complete.
+func c02Fanout(c *fw.Ctx, base string) {
+	for variant := 0; variant < 2; variant++ {
+		label := []string{"write-failure-of-another-recipient", "joins-between-same-topic-publishes"}[variant]
+		fw.LogCase("C02 %s", label)
+		cl := kit.NewCluster(base + "/f-" + label)
+		n, err := cl.AddNode(kit.NodeOpts{ID: 1})
+		if err != nil {
+			c.Inconclusive("cannot start node: " + err.Error())
+			return
+		}
+		func() {
+			defer cl.Close()
+			pub, err := n.MustConnect(kit.ConnectOpts{ClientID: "p", KeepAlive: 600, Clean: true})
+			if err != nil {
+				c.Inconclusive(label + ": connect: " + err.Error())
+				return
+			}
+			defer pub.Close()
+			publish := func(tag string, sent *[]*c02Sent) bool {
+				s := &c02Sent{tag: tag, topic: "c02f/t", qos: 1}
+				pl := c02Payload(s.tag, 10)
+				s.sum, s.size = sha1.Sum(pl), len(pl)
+				s.acked, _ = pub.Publish(s.topic, pl, 1, false, kit.DefaultWait)
+				if !s.acked {
+					c.Inconclusive(label + ": publish not acknowledged")
+					return false
+				}
+				if sent != nil {
+					*sent = append(*sent, s)
+				}
+				return true
+			}
+			sent := []*c02Sent{}
+			var healthy *kit.Client
+			if variant == 0 {
+				a, fa := n.DialFaulty("broken")
+				defer a.Close()
+				if code, err := a.Connect(kit.ConnectOpts{ClientID: "broken", KeepAlive: 600, Clean: true}); err != nil || code != 0 {
+					c.Inconclusive(label + ": connect failed")
+					return
+				}
+				if a.Sub1("c02f/t", 0) != nil { // subscribes first: it precedes the healthy one in the recipient list
+					c.Inconclusive(label + ": subscribe failed")
+					return
+				}
+				healthy, err = n.MustConnect(kit.ConnectOpts{ClientID: "healthy", KeepAlive: 600, Clean: true})
+				if err != nil {
+					c.Inconclusive(label + ": connect: " + err.Error())
+					return
+				}
+				defer healthy.Close()
+				if healthy.Subscribe([]string{"c02f/t", "c02f/end"}, []int{0, 0}) != nil {
+					c.Inconclusive(label + ": subscribe failed")
+					return
+				}
+				healthy.Ping(kit.DefaultWait)
+				fa.FailWrites(true)
+				for i := 0; i < 5; i++ {
+					if !publish(fmt.Sprintf("%s-m%d", label, i), &sent) {
+						return
+					}
+				}
+				c.Observe("writes_refused_by_fault_injection", int(fa.Failed))
+			} else {
+				early, err := n.MustConnect(kit.ConnectOpts{ClientID: "early", KeepAlive: 600, Clean: true})
+				if err != nil {
+					c.Inconclusive(label + ": connect: " + err.Error())
+					return
+				}
+				defer early.Close()
+				early.Sub1("c02f/t", 0)
+				early.Ping(kit.DefaultWait)
+				for i := 0; i < 3; i++ {
+					if !publish(fmt.Sprintf("%s-before%d", label, i), nil) {
+						return
+					}
+				}
+				// wait until the writer has handled them (the early subscriber has the last one)
+				if _, _, err := early.WaitFor(0, 60*time.Second, func(e kit.Event) bool {
+					return e.Pkt.Type == kit.PUBLISH && strings.HasPrefix(string(e.Pkt.Payload), label+"-before2|")
+				}); err != nil {
+					c.Inconclusive(label + ": early subscriber did not get the warm-up messages")
+					return
+				}
+				healthy, err = n.MustConnect(kit.ConnectOpts{ClientID: "late", KeepAlive: 600, Clean: true})
+				if err != nil {
+					c.Inconclusive(label + ": connect: " + err.Error())
+					return
+				}
+				defer healthy.Close()
+				if healthy.Subscribe([]string{"c02f/t", "c02f/end"}, []int{0, 0}) != nil {
+					c.Inconclusive(label + ": subscribe failed")
+					return
+				}
+				healthy.Ping(kit.DefaultWait) // the subscription is complete
+				for i := 0; i < 4; i++ {
+					if !publish(fmt.Sprintf("%s-after%d", label, i), &sent) {
+						return
+					}
+				}
+			}
+			if !c02Barrier(c, label, pub, []*kit.Client{healthy}, "c02f/end", 4) {
+				return
+			}
+			c02Verify(c, label, []*kit.Client{healthy}, []int{0}, sent, "lost:"+label)
+			c.Case(label, true)
+			c.Observe("fanout_scenarios", 1)
 		}()
 	}
 }
